@@ -70,21 +70,46 @@ def parse_budget(case):
     return int(4e5 + 4e3 * n + 40 * n * n)
 
 
+CPU_LIMIT = 15  # seconds of CPU per case; typical cases cost milliseconds
+_cpu_hits = [0]
+
+
+def exhausted():
+    """three CPU overruns in one shard: further search on this tree is pointless (and, where the time is spent inside
+    compiled code that no alarm can interrupt, very slow) - the shard stops generating and reports what it has"""
+    return _cpu_hits[0] >= 3
+
+
 def parse(case, budget=True):
     """returns (tree, work, failure) where failure is (bucket, detail) or None"""
+    import time as _time
+
+    cpu0 = _time.process_time()
+    tree, work, fail = _parse(case, budget)
+    used = _time.process_time() - cpu0
+    if fail is None and used > CPU_LIMIT:
+        # the alarm cannot interrupt compiled code; the CPU clock still tells (15 s against milliseconds typical)
+        fail = ("hang:cpu-limit", "parse burnt %.0f s CPU for %d characters" % (used, len(text_of(case))))
+        tree = None
+    if fail is not None and fail[0] == "hang:cpu-limit":
+        _cpu_hits[0] += 1
+    return tree, work, fail
+
+
+def _parse(case, budget=True):
     from mwlib.parser.refine.uparser import parse_string
 
     raw = text_of(case)
     db = make_db(case)
     w = Work(parse_budget(case) if budget else 10 ** 12)
     try:
-        with cpu_limit(60):
+        with cpu_limit(CPU_LIMIT):
             with w:
                 tree = parse_string(title="Thispage", raw=raw, wikidb=db, lang=case["lang"])
     except StepBudgetExceeded:
         return None, w.count, ("hang:step-budget", "more than %d calls for %d characters" % (w.limit, len(raw)))
     except CpuAlarm:
-        return None, w.count, ("hang:cpu-60s", "parse burnt more than 60 s CPU for %d characters" % len(raw))
+        return None, w.count, ("hang:cpu-limit", "parse burnt more than %d s CPU for %d characters" % (CPU_LIMIT, len(raw)))
     except RecursionError as e:
         return None, w.count, ("exception:RecursionError:" + repo_frame_bucket(e).split(":", 1)[1], "depth %r" % case.get("depth"))
     except MemoryError:
@@ -198,14 +223,15 @@ def drive(case, want_c05=True, want_c06=True):
         budget = int(1e6 + 2e3 * nodes * nodes)
         w = Work(budget)
         try:
-            with cpu_limit(60):
+            with cpu_limit(CPU_LIMIT):
                 with w:
                     getattr(tc, name)(tree)
         except StepBudgetExceeded:
             res["failures"].append(("C06", "hang:%s:step-budget" % name, "more than %d calls on %d nodes" % (budget, nodes)))
             return res
         except CpuAlarm:
-            res["failures"].append(("C06", "hang:%s:cpu-60s" % name, "%d nodes" % nodes))
+            _cpu_hits[0] += 1
+            res["failures"].append(("C06", "hang:%s:cpu-limit" % name, "%d nodes" % nodes))
             return res
         except RecursionError as e:
             res["failures"].append(("C06", "exception:%s:RecursionError" % name, "depth %r" % case.get("depth")))
